@@ -168,6 +168,9 @@ func updatePolicyConns(rulePorts *[]apisv1a.AdminNetworkPolicyPort, policyConns 
 
 // ruleConnections returns the connectionSet from the current rule.Ports
 func ruleConnections(ports *[]apisv1a.AdminNetworkPolicyPort, dst Peer) (*common.ConnectionSet, error) {
+	if ports != nil && len(*ports) == 0 {
+		ports = nil // an explicitly empty list (`ports: []`) does not restrict the ports either
+	}
 	if ports == nil {
 		return common.MakeConnectionSet(true), nil // If Ports is not set then the rule does not filter traffic via port.
 	}
@@ -240,6 +243,9 @@ func subjectSelectsPeer(anpSubject apisv1a.AdminNetworkPolicySubject, p Peer, er
 //
 //gocyclo:ignore
 func anpPortContains(rulePorts *[]apisv1a.AdminNetworkPolicyPort, protocol, port string, dst Peer) (bool, error) {
+	if rulePorts != nil && len(*rulePorts) == 0 {
+		rulePorts = nil // an explicitly empty list (`ports: []`) does not restrict the ports either
+	}
 	if rulePorts == nil {
 		return true, nil // If this field is empty or missing, this rule matches all ports (traffic not restricted by port)
 	}
